@@ -93,12 +93,12 @@ def render(source):
 
 def gen_cases(tier, seed):
     cases = []
-    n = 40 if tier == "quick" else 600
+    n = 40 if tier == "quick" else 2400
     for k in range(n):
         cases.append({"id": "docset-%d" % k, "sig": ["docset", k], "kind": "docset", "k": k})
-    for k in range(8 if tier == "quick" else 80):
+    for k in range(8 if tier == "quick" else 400):
         cases.append({"id": "reload-%d" % k, "sig": ["reload", k], "kind": "reload", "k": k})
-    for k in range(12 if tier == "quick" else 120):
+    for k in range(12 if tier == "quick" else 600):
         cases.append({"id": "mixed-%d" % k, "sig": ["mixed", k], "kind": "mixed", "k": k})
     for variant in ("valid", "tampered", "wrong-cert", "unsigned-with-cert", "signed-no-cert", "wrapped-root"):
         for wrapped in (0, 1):
@@ -108,7 +108,7 @@ def gen_cases(tier, seed):
             for form in CONFIG_FORMS[1:]:
                 cases.append({"id": "signed-%s-%s-%s" % (variant, "entities" if wrapped else "entity", form), "sig": ["signed", variant, wrapped, form],
                               "kind": "signed", "variant": variant, "wrapped": wrapped, "form": form})
-    for k in range(6 if tier == "quick" else 60):
+    for k in range(6 if tier == "quick" else 300):
         cases.append({"id": "roundtrip-%d" % k, "sig": ["roundtrip", k], "kind": "roundtrip", "k": k})
     return cases
 
